@@ -728,4 +728,76 @@ m('c06-twin-sum-product', 'C06', 'neutral', MOD, SL, "loss = util.safe_div(jnp.v
 m('c06-twin-vdot-order', 'C06', 'neutral', MOD, '_evaluate_average_loss_step', "accum_loss += jnp.vdot(mask, loss)",
   "accum_loss += jnp.vdot(loss, mask)")
 
+# ---------------------------------------------------------------- C08
+SQ = 'SQLiteFederatedData'
+m('c08-inmem-empty', 'C08', 'break', IMFD, 'InMemoryFederatedData.__init__',
+  "self._features = list(self._client_to_data_mapping[self._client_ids[0]].keys()) if self._client_ids else []",
+  "self._features = list(self._client_to_data_mapping[self._client_ids[0]].keys())", expect='R-EMPTY')
+m('c08-sql-stop-inclusive', 'C08', 'break', SQL, SQ + '._range_where', "return '(client_id < :stop)'",
+  "return '(client_id <= :stop)'", expect='R-SIB.range')
+m('c08-sql-start-exclusive', 'C08', 'break', SQL, SQ + '._range_where', "return '(:start <= client_id)'",
+  "return '(:start < client_id)'", expect='R-SIB.range')
+m('c08-sql-both-or', 'C08', 'break', SQL, SQ + '._range_where', "return '(:start <= client_id AND client_id < :stop)'",
+  "return '(:start <= client_id OR client_id < :stop)'", expect='R-SIB.range')
+m('c08-sql-arm-swapped', 'C08', 'break', SQL, SQ + '._range_where',
+  "if self._start is None and self._stop is None:\n  return '(1)'\nelif self._start is not None and self._stop is not None:\n  return '(:start <= client_id AND client_id < :stop)'\nelif self._start is None:\n  return '(client_id < :stop)'\nelse:\n  return '(:start <= client_id)'",
+  "if self._start is None and self._stop is None:\n  return '(1)'\nelif self._start is not None and self._stop is not None:\n  return '(:start <= client_id AND client_id < :stop)'\nelif self._stop is None:\n  return '(client_id < :stop)'\nelse:\n  return '(:start <= client_id)'",
+  expect='R-SIB.range')
+m('c08-point-lookup-stop-inclusive', 'C08', 'break', SQL, SQ + '.get_client', "client_id < self._stop", "client_id <= self._stop",
+  mode='expr', expect='R-')
+m('c08-point-lookup-unguarded', 'C08', 'break', SQL, SQ + '.client_size',
+  "if (self._start is None or self._start <= client_id) and (self._stop is None or client_id < self._stop):\n  cursor = self._connection.execute('SELECT num_examples FROM federated_data WHERE client_id = ?', [client_id])\n  result = cursor.fetchone()\n  if result is not None:\n    return result[0]",
+  "cursor = self._connection.execute('SELECT num_examples FROM federated_data WHERE client_id = ?', [client_id])\nresult = cursor.fetchone()\nif result is not None:\n  return result[0]",
+  expect='R-')
+m('c08-num-clients-unrestricted', 'C08', 'break', SQL, SQ + '.num_clients',
+  "cursor = self._connection.execute(f'SELECT COUNT(*) FROM federated_data WHERE {self._range_where()};', {'start': self._start, 'stop': self._stop})",
+  "cursor = self._connection.execute('SELECT COUNT(*) FROM federated_data;')", expect='R-SQL')
+m('c08-no-order-by', 'C08', 'break', SQL, SQ + '._read_clients',
+  "cursor = self._connection.execute(f'SELECT client_id, data FROM federated_data WHERE {self._range_where()} ORDER BY rowid;', {'start': self._start, 'stop': self._stop})",
+  "cursor = self._connection.execute(f'SELECT client_id, data FROM federated_data WHERE {self._range_where()};', {'start': self._start, 'stop': self._stop})",
+  expect='R-SQL.order')
+m('c08-binds-swapped', 'C08', 'break', SQL, SQ + '.client_ids', "{'start': self._start, 'stop': self._stop}",
+  "{'start': self._stop, 'stop': self._start}", mode='expr', expect='R-SQL')
+m('c08-keyerror-none', 'C08', 'break', SQL, SQ + '.get_client', "raise KeyError", "return None", expect='R-KEYERR')
+m('c08-slice-enlarges', 'C08', 'break', SQL, SQ + '.slice',
+  "start, stop = federated_data.intersect_slice_ranges(self._start, self._stop, start, stop)", "pass", expect='R-DERIVE')
+m('c08-intersect-min-max', 'C08', 'break', FD, 'intersect_slice_ranges', "new_start = max(current_start, new_start)",
+  "new_start = min(current_start, new_start)", expect='R-DERIVE.intersect')
+m('c08-intersect-drops-current', 'C08', 'break', FD, 'intersect_slice_ranges',
+  "if new_stop is None:\n  new_stop = current_stop\nelse:\n  new_stop = min(current_stop, new_stop)",
+  "if new_stop is not None:\n  new_stop = min(current_stop, new_stop)", expect='R-DERIVE.intersect')
+m('c08-preprocess-drops-range', 'C08', 'break', SQL, SQ + '.preprocess_client',
+  "return SQLiteFederatedData(self._connection, self._parse_examples, self._start, self._stop, self._preprocess_client.append(fn), self._preprocess_batch)",
+  "return SQLiteFederatedData(self._connection, self._parse_examples, None, None, self._preprocess_client.append(fn), self._preprocess_batch)",
+  expect='R-DERIVE')
+m('c08-preprocess-batch-as-client', 'C08', 'break', IMFD, 'InMemoryFederatedData.preprocess_batch',
+  "return InMemoryFederatedData(self._client_to_data_mapping, self._preprocess_client, self._preprocess_batch.append(fn))",
+  "return InMemoryFederatedData(self._client_to_data_mapping, self._preprocess_batch.append(fn), self._preprocess_client)",
+  expect='R-DERIVE')
+m('c08-append-mutates', 'C08', 'break', FD, 'ClientPreprocessor.append', "return ClientPreprocessor(self._fns + (fn,))",
+  "self._fns = self._fns + (fn,)\nreturn self", expect='R-')
+m('c08-append-prepends', 'C08', 'break', CD, 'BatchPreprocessor.append', "return BatchPreprocessor(self._fns + (fn,))",
+  "return BatchPreprocessor((fn,) + self._fns)", expect='R-DERIVE.chain')
+m('c08-subset-no-membership', 'C08', 'break', FD, 'SubsetFederatedData.get_client',
+  "if client_id not in self._client_ids:\n  raise KeyError", "pass", expect='R-KEYERR')
+m('c08-subset-slice-base-ids', 'C08', 'break', FD, 'SubsetFederatedData.slice',
+  "client_ids = set((i for i in self._client_ids if start <= i and i < stop))",
+  "client_ids = set((i for i in self._base.client_ids() if start <= i and i < stop))", expect='R-DERIVE')
+m('c08-inmem-slice-stop-inclusive', 'C08', 'break', IMFD, 'InMemoryFederatedData.slice', "i < stop", "i <= stop", mode='expr',
+  expect='R-SIB.range')
+m('c08-inmem-view-removes', 'C08', 'break', IMFD, 'InMemoryFederatedData.client_ids', "return iter(sorted(self._client_ids))",
+  "self._client_ids.sort()\nreturn iter(self._client_ids)", expect='R-')
+m('c08-client-dataset-order', 'C08', 'break', SQL, SQ + '._client_dataset',
+  "return client_datasets.ClientDataset(examples, self._preprocess_batch)",
+  "return client_datasets.ClientDataset(self._parse_examples(data), self._preprocess_batch)", expect='R-ORDER.preprocess')
+m('c08-unsorted-ids', 'C08', 'break', FD, 'SubsetFederatedData.client_ids', "return iter(sorted(self._client_ids))",
+  "return iter(self._client_ids)", expect='R-ORDER.sorted')
+m('c08-shuffle-reseeded', 'C08', 'break', IMFD, 'InMemoryFederatedData.shuffled_clients',
+  "rng = np.random.RandomState(seed)\nwhile True:\n  for client_id, dataset in client_datasets.buffered_shuffle(self.clients(), buffer_size, rng):\n    yield (client_id, dataset)",
+  "while True:\n  rng = np.random.RandomState(seed)\n  for client_id, dataset in client_datasets.buffered_shuffle(self.clients(), buffer_size, rng):\n    yield (client_id, dataset)",
+  expect='R-ORDER.shuffled') if False else None
+m('c08-twin-ge', 'C08', 'neutral', IMFD, 'InMemoryFederatedData.slice', "start <= i and i < stop", "i >= start and stop > i",
+  mode='expr')
+m('c08-twin-sql-ge', 'C08', 'neutral', SQL, SQ + '._range_where', "return '(:start <= client_id)'", "return '(client_id >= :start)'")
+
 _E[:] = [e for e in _E if e is not None]
